@@ -381,10 +381,23 @@ def run_precedence(env, p):
     cfgv = env.real('c1', 0, 100)
     fs.files[TARGET] = [('RAW', {'p1': stored1, 'p2': stored2})]
     from frappy.config import Param
-    srv, mod, wlog = make_module(fs, cfg={'p1': {'value': cfgv}})
-    env.check(mod.p1 == cfgv, K + '/configured-value-overridden-by-file')
-    env.check(mod.p2 == stored2, K + '/stored-value-not-restored')
-    env.check(mod.p4 == 'dflt', K + '/default-not-applied')
+    which = env.choice('configured', 3)     # p1 has a write method, p2 / p4 have none
+    if which == 0:
+        srv, mod, wlog = make_module(fs, cfg={'p1': {'value': cfgv}})
+        env.check(mod.p1 == cfgv, K + '/configured-value-overridden-by-file')
+        env.check(mod.p2 == stored2, K + '/stored-value-not-restored')
+    elif which == 1:
+        cfg2 = env.int('c2', -10, 10)
+        srv, mod, wlog = make_module(fs, cfg={'p2': {'value': cfg2}})
+        env.check(mod.p2 == cfg2, K + '/configured-value-overridden-by-file/no-write-method')
+        env.check(mod.p1 == stored1, K + '/stored-value-not-restored')
+    else:
+        fs.files[TARGET] = [('RAW', {'p1': stored1, 'p2': stored2, 'p4': 'stored'})]
+        srv, mod, wlog = make_module(fs, cfg={'p4': {'value': 'configured'}})
+        env.check(mod.p4 == 'configured', K + '/configured-value-overridden-by-file/no-write-method')
+        env.check(mod.p2 == stored2, K + '/stored-value-not-restored')
+    if which != 2:
+        env.check(mod.p4 == 'dflt', K + '/default-not-applied')
     for t in REQUIRED_TAGS:
         env.note(t)
 
